@@ -396,9 +396,13 @@ def timeAddUs (t : DT) (d : Int) : Except Err DT :=
   | .ok (_, _, _, us) => mkUs 2000 1 1 us t.tz
   | .error e => .error e
 
-/-- `time ± DayTimeDuration` -/
-def timeAddDur (t : DT) (dur : Int) (neg : Bool) : Except Err DT := do
-  let d ← tdNorm dur                      -- other.get_timedelta()
+/-- `Decimal.__mod__` on the µs grid: the remainder has the sign of the dividend (`other.seconds % 86400`) -/
+def decRem (x m : Int) : Int := if x ≥ 0 then x % m else -((-x) % m)
+
+/-- `time ± DayTimeDuration` (after fix-c11-3): `self._dt ± DayTimeDuration(other.seconds % 86400).get_timedelta()`:
+only the duration modulo 24 hours is added, so the proxy date never leaves CPython's range -/
+def timeAddDur (t : DT) (dur : Int) (neg : Bool) : Except Err DT :=
+  let d := decRem dur US
   timeAddUs t (if neg then -d else d)
 
 /-- `time − time` (`Time.__sub__`): `DayTimeDuration.fromtimedelta(dt1 - dt2)` of the two proxy datetimes -/
@@ -470,6 +474,13 @@ def yearFrom (v11 : Bool) (y : Int) : Int := if y < 0 ∧ v11 = true then y + 1 
 seconds with fraction in µs -/
 def components (v11 : Bool) (v : DT) : List Int :=
   [yearFrom v11 v.year, v.month, v.day, v.us / 3600000000, v.us / 60000000 % 60, v.us % 60000000]
+
+/-- the `[Z]` component of `fn:format-dateTime/date/time` (xpath30_helpers.parse_datetime_marker): the offset of
+the value in minutes — a value without timezone is rendered as `+00:00` (finding F11y: F&O prints nothing) -/
+def pictureTz (tz : Option Int) : Option Int :=
+  match tz with
+  | none => some 0
+  | some z => some z
 
 /-! ### durations: a duration is (months, µs) -/
 
